@@ -32,7 +32,7 @@ SYMS = ['dense', 'Z2', 'Z3', 'U1', 'Z2xU1', 'U1xU1', 'U1xU1xZ2']
 
 def cases(tier, seed):
     out = []
-    reps = 2 if tier == 'quick' else 6
+    reps = 5 if tier == 'quick' else 14
     for kind in ('svd', 'qr', 'eigh'):
         fac = {'sym': SYMS, 'dtype': ['real', 'complex'], 'lazy': ['plain', 'lazy', 'consumed'], 'fused': ['none', 'hard', 'meta'],
                'sU': [1, -1], 'rank': [2, 3, 4]}
@@ -113,6 +113,17 @@ def _prep(ctx, rng, spec, a, axes):
             g_fused = (len(others),)
             axes = (g_fused, g_other) if side == 0 else (g_other, g_fused)
     return a, axes
+
+
+def _merged_block_dims(a, axes):
+    """dims of the effective matrix blocks for this bipartition (structure only: a zero-filled copy is hard-fused)"""
+    az = a.copy()
+    az._data = np.zeros(a.size, dtype=a._data.dtype)
+    az = az.fuse_meta_to_hard() if False else az
+    g0 = axes[0] if len(axes[0]) > 1 else axes[0][0]
+    g1 = axes[1] if len(axes[1]) > 1 else axes[1][0]
+    f = az.fuse_legs(axes=(g0, g1), mode='hard')
+    return [tuple(D) for D in f.struct.D]
 
 
 def _mat(X, nrow_axes):
@@ -201,6 +212,10 @@ def k_qr(ctx, spec):
     a, axes = _prep(ctx, rng, spec, a, axes)
     sQ = spec['sU']
     nl, nr = len(axes[0]), len(axes[1])
+    # sign fixing forks 3 ways per diagonal element of R: bound the number of diagonal elements
+    ndiag = sum(min(D) for D in _merged_block_dims(a, axes))
+    if ndiag > (5 if spec['tier'] == 'quick' else 7):
+        ctx.skip(f'{ndiag} diagonal elements of R: sign-fork bound exceeded')
     Qaxis = rng.choice([-1, -1, 0, rng.randint(0, nl)])
     Raxis = rng.choice([0, 0, -1, rng.randint(0, nr)])
     Q, R = yastn.linalg.qr(a, axes=axes, sQ=sQ, Qaxis=Qaxis, Raxis=Raxis)
@@ -249,6 +264,12 @@ def k_eigh(ctx, spec):
         a = a.consume_transpose()
     sU, which = spec['sU'], spec['which']
     nl = len(axes[0])
+    nfork = 1
+    for D in _merged_block_dims(a, axes):
+        for j in range(2, min(D) + 1):
+            nfork *= j * (2 if which in ('SM', 'LM') else 1)
+    if which != 'SR' and nfork > (300 if spec['tier'] == 'quick' else 3000):
+        ctx.skip('eigenvalue-ordering fork bound exceeded')
     Uaxis = rng.choice([-1, -1, 0, rng.randint(0, nl)])
     S, U = yastn.linalg.eigh(a, axes=axes, sU=sU, Uaxis=Uaxis, which=which)
     zero = cfg.sym.zero()
